@@ -6,9 +6,9 @@ SPEC = dict(
     drivers=["qxdriver_c13"],
     harnesses=[dict(name="task", asan=True, driver="qxdriver_c13")],
     exhaustive=True,
-    rule="op sequences over {then(ctx, re-entrant body), finish, destroy ctx, copy handle, drop handle} for void / copyable / "
-         "move-only results: exhaustive to depth 4 (quick) or 6 (thorough) over a 10-symbol alphabet plus seeded random sequences "
-         "over a 36-symbol alphabet; every line compares events (which continuation ran, with which context and value, what was "
+    rule="op sequences over {then(ctx, re-entrant body incl. attach / destroy ctx / drop EVERY handle from inside the continuation), finish, destroy ctx, copy handle, drop handle} for void / copyable / "
+         "move-only results: exhaustive to depth 4 (quick) or 6 (thorough) over a 12-symbol alphabet plus seeded random sequences "
+         "over a 48-symbol alphabet; every line compares events (which continuation ran, with which context and value, what was "
          "released), isFinished, hasResult and handle count between the real QXmppPromise/QXmppTask and the Lean model; a "
          "sequence is non-trivial when it yields >= 2 distinct observations; harness built with ASan+UBSan",
     trusted_base=[
@@ -21,7 +21,7 @@ SPEC = dict(
         "memory safety / leaks are a runtime matter: sanitizer-instrumented harness + instance counters, not a theorem (partial)",
     ],
     level_text="Theorems for every history, kind and re-entrant body: at most once (cont_runs_at_most_once), never after context "
-               "death, delivered value = finished value, replaced continuation never runs, release when unreferenced; model tied to "
+               "death, delivered value = finished value, replaced continuation never runs, release when unreferenced (also when the continuation itself drops the last handle); model tied to "
                "the real templates by exhaustive+random correspondence under ASan.",
     level_note="Proved about the hand-written model; model-to-code tie is differential (exhaustive to a depth, sampled beyond). "
                "Leak/use-after-free half is sanitizer exploration (partial).",
